@@ -343,8 +343,10 @@ pub fn gen_history(rng: &mut Rng, cfg: RCfg, image: &[u8], len: usize, o: &GenOp
         tries += 1;
         let r = rng.below(100);
         let op = if r < 30 {
-            let n = match rng.below(6) {
+            let n = match rng.below(7) {
                 0 => *rng.pick(&[0usize, 1, 63, 64, w.min(64), (w + 1).min(64)]),
+                // a read ending exactly at the end of the data
+                6 if total >= pos && total - pos <= 64 => total - pos,
                 _ => rng.below(65) as usize,
             };
             ROp::Read(n)
@@ -354,7 +356,14 @@ pub fn gen_history(rng: &mut Rng, cfg: RCfg, image: &[u8], len: usize, o: &GenOp
             let k = 1 + rng.below(cfg.kind.peek_limit() as u64) as usize;
             ROp::PeekSkip(k, rng.below(k as u64 + 1) as usize)
         } else if r < 57 {
-            let n = if rng.chance(1, 3) { rng.below(3 * w as u64 + 3) as usize } else { rng.below(20) as usize };
+            // a quarter of the skips end exactly at the end of the data or exactly on a later word
+            // boundary: a skip that fetches one word too many is invisible everywhere else
+            let n = match rng.below(8) {
+                0 if total >= pos && total - pos <= 6 * w => total - pos,
+                1 => (pos / w + 1 + rng.below(3) as usize) * w - pos,
+                2 | 3 | 4 => rng.below(3 * w as u64 + 3) as usize,
+                _ => rng.below(20) as usize,
+            };
             ROp::Skip(n)
         } else if r < 69 {
             ROp::Unary
